@@ -612,27 +612,25 @@ def handleMore (op : String) (args : List String) (impl : Impl) : Option Ans :=
   | "next", [e, w] | "prev", [e, w] => do
     let e ← parseEp? e; let w ← w.toInt?
     let m := if op == "next" then e.next w else e.previous w
-    let fits := convFits e TS.TAI && inRange (sval e.dur + 8 * nsPerDay) && inRange (sval e.dur - 8 * nsPerDay)
+    let fits := inRange (sval e.dur + 9 * nsPerDay) && inRange (sval e.dur - 9 * nsPerDay) &&
+                inRange (sval e.dur + refOffsetNs e.ts.name + 9 * nsPerDay)
+    -- spec (all nine scales, own calendar since fix 2e58fb7): 1 to 7 whole days of the epoch's own count away, same
+    -- scale, and the calendar date of the result in that scale falls on the requested weekday; no leap-second guard
     let sp := if !fits then noPanic impl else match impl with
       | .ok [r] => (match parseEp? r with
           | some r =>
             let delta := if op == "next" then sval r.dur - sval e.dur else sval e.dur - sval r.dur
-            let leapEdge := e.ts == TS.UTC && leapBetween (min (sval e.dur) (sval r.dur) - 40000000000) (max (sval e.dur) (sval r.dur) + 40000000000)
-            let wdOk := match valueIn r TS.TAI with
-              | some v => specWeekday v == w
-              | none => false
-            verdict [("scale", r.ts == e.ts), ("whole_days_1_to_7", decide (delta % nsPerDay = 0 ∧ 1 ≤ delta / nsPerDay ∧ delta / nsPerDay ≤ 7)),
-                     -- a leap second between a UTC epoch and the result moves the TAI time of day by one second: there, the
-                     -- weekday of the UTC date is accepted instead (audit 2: the guard used to excuse the clause altogether)
-                     ("lands_on_weekday", wdOk || (leapEdge && specWeekday (sval r.dur) == w))]
+            verdict [("scale", r.ts == e.ts), ("canonical", scanon r.dur),
+                     ("whole_days_1_to_7", decide (delta % nsPerDay = 0 ∧ 1 ≤ delta / nsPerDay ∧ delta / nsPerDay ≤ 7)),
+                     ("lands_on_weekday", specWeekday (sval r.dur + refOffsetNs e.ts.name) == w)]
           | none => "FAIL:decode")
       | .other x => "FAIL:" ++ x
       | _ => "FAIL:decode"
-    pure { model := showOEp m, spec := sp, branch := op ++ ":" ++ e.ts.name ++ ":" ++ toString w ++ (if fits then "" else ":saturating") }
+    pure { model := showOEp m, spec := sp, branch := op ++ ":" ++ e.ts.name ++ ":" ++ toString w ++ (if fits then "" else ":out_of_range") }
   | "next_midnight", [e, w] | "next_noon", [e, w] | "prev_midnight", [e, w] | "prev_noon", [e, w] => do
     let e ← parseEp? e; let w ← w.toInt?
     let fwd := op == "next_midnight" || op == "next_noon"
-    let base : Ep := if fwd then e.nextOwn w else e.previousOwn w
+    let base : Ep := if fwd then e.nextOwn w else e.previousOwn w   -- = next / previous
     let h : Int := if op == "next_noon" || op == "prev_noon" then 12 else 0
     let m : Res Ep := match withHmsStrictCal base.dur base.ts h with
       | .ok d => Res.ok (⟨d, base.ts⟩ : Ep) | .err => .err | .panic => .panic
